@@ -1278,8 +1278,10 @@ def run(ctx, rep):
     check_bounds_do_not_depend_on_data(ctx, rep)
     rep.rule('C19.I', "requested initial values reach the emitted specification in a form the reader accepts: a list-valued 'tensor' is never left next to a 'full' size")
     check_list_tensor_next_to_full(ctx, rep)
-    rep.rule('C19.N', "the initial value written for a parameter that a density divides by is never exactly zero, for any combination of options")
+    rep.rule('C19.S', "the initial value written for a parameter that a density divides by is never exactly zero, for any combination of options")
     check_initial_values_off_singularities(ctx, rep)
+    rep.rule('C19.L', "kind inference over the CLI: a value that can be a list (a split result handed on unchanged) is never compared with a string")
+    check_list_compared_with_string(ctx, rep)
 
 
 BOUND_POSITIVE = """
@@ -1448,7 +1450,7 @@ def divisor_attributes(ctx):
 
 
 def check_initial_values_off_singularities(ctx, rep):
-    """C19.N — the initial value the CLI writes for a parameter that a density divides by is never exactly zero, whatever the options: the target and its gradient are NaN at
+    """C19.S — the initial value the CLI writes for a parameter that a density divides by is never exactly zero, whatever the options: the target and its gradient are NaN at
     such a starting point and no sampler or optimiser leaves it."""
     div = divisor_attributes(ctx)
     if 'growth' not in div:
@@ -1513,10 +1515,106 @@ def check_initial_values_off_singularities(ctx, rep):
                 n += 1
                 key = f"{mname.replace('torchtree.', '')}::{fn.name}::{last}-starts-off-the-singularity"
                 if vals is None:
-                    rep.excluded('C19.N', key, where(m, c), 'initial value computed at run time (from data or a free-form option)')
+                    rep.excluded('C19.S', key, where(m, c), 'initial value computed at run time (from data or a free-form option)')
                     continue
-                rep.check('C19.N', key, 0.0 not in vals, where(m, c), {'possible_initial_values': sorted(vals), 'divided_by_in': sorted(set(div[last]))[:4]},
+                rep.check('C19.S', key, 0.0 not in vals, where(m, c), {'possible_initial_values': sorted(vals), 'divided_by_in': sorted(set(div[last]))[:4]},
                           f"{fn.name}: the parameter `…{last}` can be emitted with the initial value 0 (possible values {sorted(vals)}), but {sorted(set(div[last]))[:2]} divide by it: the "
                           f"density and its gradient are NaN at the starting point")
     if n < 3:
-        rep.incomplete('C19.N', '*', '', f"only {n} initial values of divisor parameters found")
+        rep.incomplete('C19.S', '*', '', f"only {n} initial values of divisor parameters found")
+
+
+# ---------------------------------------------------------------------------
+# C19.L — a list is never compared with a string
+# ---------------------------------------------------------------------------
+def check_list_compared_with_string(ctx, rep):
+    """Kind inference over torchtree/cli (lists from `.split(…)` / list(…) / literals, strings from constants and from elements of split results), through local names,
+    tuple returns and call arguments (three rounds).  `x == 'name'` where x may be a LIST is false whatever the list holds: the branch that was meant for that name is skipped
+    silently — with an if / elif chain that has no else, a prior or a model component is simply not emitted."""
+    mods = {mn: m for mn, m in ctx.prog.modules.items() if mn.startswith('torchtree.cli')}
+    fns = {}
+    for mn, m in mods.items():
+        for name, fn in m.functions.items():
+            fns.setdefault(name, (m, fn))
+    ret_kinds = {name: None for name in fns}          # name -> set | tuple(set, …)
+    param_kinds = {name: {} for name in fns}
+
+    def kinds(e, env, depth=0):
+        if isinstance(e, ast.Constant):
+            return {'str'} if isinstance(e.value, str) else ({'none'} if e.value is None else {'num'})
+        if isinstance(e, (ast.List, ast.ListComp)):
+            return {'list'}
+        if isinstance(e, ast.JoinedStr):
+            return {'str'}
+        if isinstance(e, ast.Call):
+            if isinstance(e.func, ast.Attribute) and e.func.attr in ('split', 'rsplit', 'splitlines'):
+                return {'list'}
+            if isinstance(e.func, ast.Name) and e.func.id == 'list':
+                return {'list'}
+            if isinstance(e.func, ast.Attribute) and e.func.attr in ('strip', 'lower', 'upper', 'replace', 'format', 'join'):
+                return {'str'}
+            if isinstance(e.func, ast.Name) and e.func.id in ret_kinds and isinstance(ret_kinds[e.func.id], set):
+                return set(ret_kinds[e.func.id])
+            return set()
+        if isinstance(e, ast.Subscript):
+            base = kinds(e.value, env, depth)
+            if 'list' in base and not isinstance(e.slice, ast.Slice):
+                return {'str'} if base == {'list'} else {'str'} | (base - {'list'})
+            return set()
+        if isinstance(e, ast.Name):
+            return set(env.get(e.id, set()))
+        if isinstance(e, ast.IfExp):
+            return kinds(e.body, env, depth) | kinds(e.orelse, env, depth)
+        return set()
+
+    def env_of(name):
+        m, fn = fns[name]
+        env = {p: set(k) for p, k in param_kinds[name].items()}
+        for _ in range(2):
+            for st in ast.walk(fn):
+                if isinstance(st, ast.Assign) and len(st.targets) == 1:
+                    t = st.targets[0]
+                    if isinstance(t, ast.Name):
+                        env.setdefault(t.id, set()).update(kinds(st.value, env))
+                    elif isinstance(t, (ast.Tuple, ast.List)) and isinstance(st.value, ast.Call) and isinstance(st.value.func, ast.Name) \
+                            and isinstance(ret_kinds.get(st.value.func.id), tuple):
+                        for x, ks in zip(t.elts, ret_kinds[st.value.func.id]):
+                            if isinstance(x, ast.Name):
+                                env.setdefault(x.id, set()).update(ks)
+        return env
+    for _ in range(3):
+        for name, (m, fn) in fns.items():
+            env = env_of(name)
+            rets = [r.value for r in ast.walk(fn) if isinstance(r, ast.Return) and r.value is not None]
+            if rets and all(isinstance(r, ast.Tuple) for r in rets) and len({len(r.elts) for r in rets}) == 1:
+                ret_kinds[name] = tuple(set().union(*[kinds(r.elts[i], env) for r in rets]) for i in range(len(rets[0].elts)))
+            elif rets:
+                ret_kinds[name] = set().union(*[kinds(r, env) for r in rets])
+            for c in ast.walk(fn):
+                if isinstance(c, ast.Call) and isinstance(c.func, ast.Name) and c.func.id in fns:
+                    callee = fns[c.func.id][1]
+                    ps = [a.arg for a in callee.args.args]
+                    for i, a in enumerate(c.args):
+                        if i < len(ps):
+                            param_kinds[c.func.id].setdefault(ps[i], set()).update(kinds(a, env))
+                    for k in c.keywords:
+                        if k.arg in ps:
+                            param_kinds[c.func.id].setdefault(k.arg, set()).update(kinds(k.value, env))
+    n = 0
+    for name, (m, fn) in sorted(fns.items()):
+        env = env_of(name)
+        for c in ast.walk(fn):
+            if isinstance(c, ast.Compare) and len(c.ops) == 1 and isinstance(c.ops[0], (ast.Eq, ast.NotEq)):
+                sides = [c.left, c.comparators[0]]
+                for a, b in (sides, sides[::-1]):
+                    if isinstance(b, ast.Constant) and isinstance(b.value, str) and not isinstance(a, ast.Constant):
+                        ks = kinds(a, env)
+                        if ks:
+                            n += 1
+                        if 'list' in ks:
+                            rep.bad('C19.L', f"{m.name.replace('torchtree.', '')}::{name}::{norm_text(c)[:50]}::a-list-is-never-equal-to-a-string", where(m, c), {'kinds_of_the_left_side': sorted(ks)},
+                                    f"{name}: `{norm_text(c)[:60]}` compares `{ast.unparse(a)[:30]}` with a string, but that value can be a LIST (the result of a split handed on "
+                                    f"unchanged): the comparison is then false whatever the list holds, the branch is skipped and — without an else — nothing is emitted in its place")
+    rep.ok('C19.L', 'cli::string-comparisons-have-string-operands', '', {'comparisons_with_known_kinds': n})
+    if 'parse_distribution' in fns and not isinstance(ret_kinds.get('parse_distribution'), tuple):
+        rep.incomplete('C19.L', 'parse_distribution', '', 'return kinds of parse_distribution not inferred')
